@@ -4,9 +4,7 @@ MARK_PRELUDE = r'''
 // ================================================================= mark phase
 use crate::vm::vector::Vector;
 use crate::vm::environment::LexicalEnvironment;
-/// contents of the interior-mutable payloads (opaque types)
-pub uninterp spec fn vector_view(v: Vector) -> Seq<VCell>;
-pub uninterp spec fn env_view(e: LexicalEnvironment) -> Seq<VCell>;
+use crate::{vector_view, env_view};
 /// heap cells a continuation / a code object refers to
 pub uninterp spec fn cont_kid(c: Continuation, k: int) -> bool;
 pub uninterp spec fn lambda_kid(l: Lambda, k: int) -> bool;
@@ -43,14 +41,6 @@ pub open spec fn ckid(v: VCell, k: int) -> bool {
         _ => false,
     }
 }
-pub assume_specification [Vector::len] (v: &Vector) -> (r: usize) ensures r == vector_view(*v).len();
-pub assume_specification [Vector::get] (v: &Vector, i: usize) -> (r: Option<VCell>)
-    ensures i < vector_view(*v).len() ==> r == Some(vector_view(*v)[i as int]), i >= vector_view(*v).len() ==> r is None;
-pub assume_specification [LexicalEnvironment::slot_len] (e: &LexicalEnvironment) -> (r: usize) ensures r == env_view(*e).len();
-pub assume_specification [LexicalEnvironment::get] (e: &LexicalEnvironment, i: usize) -> (r: VCell)
-    requires i < env_view(*e).len() ensures r == env_view(*e)[i as int];
-pub assume_specification<T: ?Sized, A: core::alloc::Allocator> [<std::rc::Rc<T, A> as AsRef<T>>::as_ref] (x: &std::rc::Rc<T, A>) -> (r: &T) ensures r == &**x;
-
 impl Heap {
     pub open spec fn marked(&self, p: int) -> bool { self.state(p) == 2 }
     pub open spec fn in_range(&self, p: int) -> bool { 0 <= p < self.len() }
